@@ -633,7 +633,7 @@ def _site(e):
 class Runner:
     def __init__(self):
         self.gfapy = _load_gfapy()
-        signal.signal(signal.SIGALRM, _alarm)
+        signal.signal(signal.SIGVTALRM, _alarm)
         self.notes = []     # (exception type, call site) of foreign results of the current case
         self.all_dialects = os.environ.get("VERIF_TIER", "quick") != "quick"
         d = os.path.join(FILES, str(os.getpid()))
@@ -642,22 +642,22 @@ class Runner:
 
     def call(self, f, *a, **kw):
         """-> (result class, value)"""
-        signal.setitimer(signal.ITIMER_REAL, WATCHDOG)
+        signal.setitimer(signal.ITIMER_VIRTUAL, WATCHDOG)
         try:
             v = f(*a, **kw)
-            signal.setitimer(signal.ITIMER_REAL, 0)
+            signal.setitimer(signal.ITIMER_VIRTUAL, 0)
             return "ok", v
         except Timeout:
             self.notes.append(("timeout", ""))
             return "FOREIGN:timeout", None
         except BaseException as e:  # noqa
-            signal.setitimer(signal.ITIMER_REAL, 0)
+            signal.setitimer(signal.ITIMER_VIRTUAL, 0)
             cls = project.errclass(e)
             if cls == "FOREIGN" and len(self.notes) < 50:
                 self.notes.append((type(e).__name__, _site(e)))
             return cls, None
         finally:
-            signal.setitimer(signal.ITIMER_REAL, 0)
+            signal.setitimer(signal.ITIMER_VIRTUAL, 0)
 
     def has_field(self, ln, fname):
         try:
